@@ -139,13 +139,17 @@ def seeds(argv):
     ids = argv or sorted(os.listdir(sdir))
     res = []
     for sid in ids:
-        meta = json.load(open(os.path.join(sdir, sid, "meta.json")))
+        seed_dir = os.path.join(sdir, sid)
+        if "/" in sid:
+            # a candidate not (yet) saved under seeded/: a directory holding patch.diff and meta.json
+            seed_dir, sid = sid.rstrip("/"), os.path.basename(sid.rstrip("/"))
+        meta = json.load(open(os.path.join(seed_dir, "meta.json")))
         prop = meta["property"]
         copy = os.path.join(root, sid)
         shutil.rmtree(copy, ignore_errors=True)
         os.makedirs(root, exist_ok=True)
         subprocess.run(["git", "-C", build.REPO, "worktree", "add", "--detach", "-q", copy, "HEAD"], check=True)
-        a = subprocess.run(["git", "-C", copy, "apply", os.path.join(sdir, sid, "patch.diff")], stdout=subprocess.PIPE, stderr=subprocess.STDOUT, text=True)
+        a = subprocess.run(["git", "-C", copy, "apply", os.path.join(seed_dir, "patch.diff")], stdout=subprocess.PIPE, stderr=subprocess.STDOUT, text=True)
         if a.returncode != 0:
             out = "PATCH-DOES-NOT-APPLY: " + a.stdout[-200:]
         else:
